@@ -22,6 +22,24 @@ func TestC13(t *testing.T) {
 	for i := 0; i < mon.Pick(90, 5000); i++ {
 		targets = append(targets, CustomTarget(i))
 	}
+	// specs whose declared version range is wider than the supported_versions list they put
+	// on the wire (Firefox_102 is the only parrot of that shape): parrot specs with
+	// TLSVersMin lowered by the caller, with and without GREASE in the list
+	for _, pn := range []string{"Chrome_120", "Chrome_83", "Firefox_120", "Safari_16_0", "Edge_106", "IOS_14"} {
+		p := ParrotByName(pn)
+		for _, minv := range []uint16{tls.VersionTLS10, tls.VersionTLS11} {
+			minv := minv
+			targets = append(targets, Target{Name: fmt.Sprintf("gap:%s(min %04x)", pn, minv), Spec: func() (*tls.ClientHelloSpec, error) {
+				sp, err := tls.UTLSIdToSpec(p.ID)
+				if err != nil {
+					return nil, err
+				}
+				sp.TLSVersMin = minv
+				sp.TLSVersMax = tls.VersionTLS13
+				return &sp, nil
+			}})
+		}
+	}
 	type job struct {
 		t      Target
 		max    uint16
@@ -62,6 +80,13 @@ func TestC13(t *testing.T) {
 		scfg := peer.ServerConfig()
 		scfg.MaxVersion = j.max
 		plan := &tls.VerifPlan{LegacyVersionNegotiation: j.legacy, Canary: j.canary}
+		if j.legacy {
+			// the hooked server negotiates from legacy_version, but its certificate selection still
+			// looks at supported_versions and falls back to the first certificate: put the RSA leaf
+			// first, which every client with TLS <= 1.1 suites can use
+			f := peer.Fix()
+			scfg.Certificates = []tls.Certificate{f.RSA, f.ECDSA, f.Ed25519}
+		}
 		var extra func(c *tls.Config)
 		offered := false
 		if j.returning {
